@@ -225,3 +225,30 @@ pub fn eval_base(case: &J) -> Outcome {
     }
     out
 }
+
+// ------------------------------------------------------------------------------------------------
+// stream `injtime`: Date -> DateTime and DateTime -> Date, against the Lean model (`dateToStamp`, `stampToDate?`)
+
+pub fn gen_time(rng: &mut Rng, k: usize, tier: &str) -> J { let c = gen_base(rng, k, tier); json!({"days": c["days"], "stamps": c["stamps"]}) }
+
+pub fn eval_time(case: &J) -> Outcome {
+    use chrono::{Datelike, NaiveDate, NaiveDateTime, NaiveTime, Timelike};
+    use qrlew::data_type::{self, injection, value as v};
+    let mut out = Outcome::new();
+    let epoch = NaiveDate::from_ymd_opt(1970, 1, 1).unwrap();
+    let day = |d: i64| epoch + chrono::Duration::days(d);
+    let dayno = |d: &NaiveDate| (d.num_days_from_ce() - epoch.num_days_from_ce()) as i64;
+    let dates: Vec<NaiveDate> = case["days"].as_array().unwrap().iter().map(|x| day(x.as_i64().unwrap())).collect();
+    let stamps: Vec<NaiveDateTime> = case["stamps"].as_array().unwrap().iter().map(|x| day(x[0].as_i64().unwrap()).and_time(NaiveTime::from_num_seconds_from_midnight_opt(x[1].as_u64().unwrap() as u32, x[2].as_u64().unwrap() as u32).unwrap())).collect();
+    let r = guarded(|| {
+        let fwd = injection::From(data_type::Date::default()).into(data_type::DateTime::default()).map_err(|e| e.to_string())?;
+        let bwd = injection::From(data_type::DateTime::default()).into(data_type::Date::default()).map_err(|e| e.to_string())?;
+        let d2dt: Vec<J> = dates.iter().map(|d| match fwd.value(&v::Date::from(*d)) { Ok(t) => json!([dayno(&t.date()), t.time().num_seconds_from_midnight(), t.time().nanosecond()]), Err(_) => json!("refused") }).collect();
+        let dt2d: Vec<J> = stamps.iter().map(|t| match bwd.value(&v::DateTime::from(*t)) { Ok(d) => json!(dayno(&d)), Err(_) => json!("refused") }).collect();
+        Ok::<J, String>(json!({"d2dt": d2dt, "dt2d": dt2d}))
+    });
+    match r { Ok(Ok(j)) => { if !stamps.iter().any(|t| t.time().num_seconds_from_midnight() == 0) { out.tag("trivial"); } out.imp = j; }
+              Ok(Err(e)) => { out.tag("trivial"); out.imp = json!({"err": e}); }
+              Err((loc, msg)) => { out.tag("trivial"); out.fail(&format!("C18/injtime/panic/{}", site(&loc, &msg)), msg); } }
+    out
+}
